@@ -73,8 +73,9 @@ func waitDown(p *vrtc.Peer, id string) bool {
 }
 
 // RunGen executes one session.  Packets are sent at about one per millisecond.
-func RunGen(srv *vsrv.Server, name string, cfg *vdown.StreamCfg, scripts []SubScript, r *rand.Rand) GenResult {
+func RunGen(srv *vsrv.Server, name string, cfg *vdown.StreamCfg, scripts []SubScript, r *rand.Rand, withAudio ...bool) GenResult {
 	var res GenResult
+	audio := len(withAudio) > 0 && withAudio[0]
 	installRecorder()
 	g := "g-" + name
 	desc := map[string]any{"users": map[string]any{"u": map[string]any{"password": "pw", "permissions": "present"}}}
@@ -123,12 +124,27 @@ func RunGen(srv *vsrv.Server, name string, cfg *vdown.StreamCfg, scripts []SubSc
 		res.Subs = append(res.Subs, &GenSub{Script: sc, SwitchAcked: -1})
 	}
 	streamID := "gst-" + name
-	up, err := pub.p.Publish(streamID, "camera", []vrtc.TrackSpec{{Kind: "video", ID: "v0", VP9: cfg.Codec == vdown.VP9}}, "")
+	specs := []vrtc.TrackSpec{{Kind: "video", ID: "v0", VP9: cfg.Codec == vdown.VP9}}
+	if audio {
+		// a microphone in the same stream (nobody requests it): the stream has two tracks, one video
+		specs = append(specs, vrtc.TrackSpec{Kind: "audio", ID: "a0"})
+	}
+	up, err := pub.p.Publish(streamID, "camera", specs, "")
 	if err != nil || up.Wait(20*time.Second) != "connected" {
 		res.Why = "publisher did not connect"
 		return res
 	}
 	tr := up.Track("v0")
+	aseq, ats := uint16(r.UintN(65536)), uint32(r.Uint64())
+	mic := func(i int) {
+		if audio && i%20 == 0 {
+			if at := up.Track("a0"); at != nil {
+				at.Local.WriteRTP(vrtc.OpusPacket(aseq, ats, 0xFFFFFFFE))
+				aseq++
+				ats += 960
+			}
+		}
+	}
 	// Warm-up: the server offers a stream to subscribers only once media flows.  Until every
 	// subscriber's down stream is connected, single-layer frames that are NOT keyframes are
 	// sent (the first, key, picture of the warm-up stream is skipped): with no keyframe in
@@ -169,6 +185,7 @@ func RunGen(srv *vsrv.Server, name string, cfg *vdown.StreamCfg, scripts []SubSc
 		}
 		pkt.Header.CSRC = nil
 		tr.Local.WriteRTP(&pkt)
+		mic(i)
 		sent = i
 		time.Sleep(time.Millisecond)
 	}
@@ -198,6 +215,7 @@ func RunGen(srv *vsrv.Server, name string, cfg *vdown.StreamCfg, scripts []SubSc
 		}
 		pkt.Header.CSRC = nil
 		tr.Local.WriteRTP(&pkt)
+		mic(i)
 		for k, sub := range res.Subs {
 			sc := sub.Script
 			if sc.SwitchAt == i {
